@@ -304,6 +304,70 @@ def auditTotalNoStyle (sizes : List Nat) : Except Err Nat :=
   | [] => .error (.nm .value)
   | s :: rest => .ok (rest.foldl max s)
 
+/-! ### the tail of `Audit.find_sample_size` (L1075-1080 and L1124-1140): `old_sizes`, `cvr.p`, the total
+
+Numeric types at `con.sample_size / (con.cards - old_sizes[c])` (probed on the real objects): `con.sample_size` is a
+Python `int` (`max(0, int(...))`), `con.cards` a Python `int`, `old_sizes[c]` is `np.sum(np.array([...bools...]))`, a
+`numpy.int64` (a `numpy.float64` `0.0` when no card lists the contest).  The difference is therefore a numpy scalar and
+the division is numpy's: a zero divisor gives `inf` (`nan` for `0/0`) with a RuntimeWarning, **not** a
+ZeroDivisionError.  Hence `XR`.  `math.ceil(inf)` raises OverflowError, `math.ceil(nan)` ValueError. -/
+
+/-- a CVR as the tail reads it -/
+structure Card where
+  contests : List String                  -- the keys of `cvr.votes` (`cvr.has_contest(c)` is `c in self.votes`)
+  sampled : Bool                          -- cvr.sampled
+  phantom : Bool                          -- cvr.phantom
+deriving Repr, Inhabited, DecidableEq
+
+/-- `cvr.has_contest(c)` (L207) -/
+def Card.has (cd : Card) (c : String) : Bool := cd.contests.contains c
+
+/-- a contest as the tail reads it, after its `sample_size` has been set -/
+structure SContest where
+  id : String                             -- the key in `contests`
+  size : Nat                              -- con.sample_size
+  cards : Int                             -- con.cards
+deriving Repr, Inhabited, DecidableEq
+
+/-- `old_sizes[c]` (L1073-1080): with style information the number of already sampled cards that list the
+contest, `np.sum(np.array([cvr.sampled for cvr in cvrs if cvr.has_contest(c)]))`; otherwise
+`old = 0 if mvr_sample is None else len(mvr_sample)` (never read again in that branch) -/
+def oldSize (useStyle : Bool) (mvrLen : Option Nat) (cvrs : List Card) (c : String) : Nat :=
+  if useStyle then ((cvrs.filter (fun cd => cd.has c)).map (fun cd => cd.sampled)).count true
+  else mvrLen.getD 0
+
+/-- `con.sample_size / (con.cards - old_sizes[c])` (L1131): numpy division -/
+def styleRatio (cvrs : List Card) (c : SContest) : XR :=
+  XR.div (XR.fin (c.size : Rat)) (XR.fin ((c.cards - (oldSize true none cvrs c.id : Int) : Int) : Rat))
+
+/-- one pass of `for c, con in contests.items()` (L1128-1132): Python's `max(a, b)` returns `a` unless `b > a` -/
+def pStep (cvrs : List Card) (cd : Card) (p : XR) (c : SContest) : XR :=
+  if cd.has c.id && !cd.sampled then XR.pymax (styleRatio cvrs c) p else p
+
+/-- `cvr.p` after L1124-1133 -/
+def cardP (cvrs : List Card) (contests : List SContest) (cd : Card) : XR :=
+  if cd.sampled then 1                                     -- L1126
+  else contests.foldl (pStep cvrs cd) 0                    -- L1128-1133
+
+/-- `math.ceil` of a float -/
+def ceilXR : XR → Except Err Int
+  | .fin q => .ok q.ceil
+  | .nan => .error (.nm .value)                            -- cannot convert float NaN to integer
+  | _ => .error (.nm .overflow)                            -- cannot convert float infinity to integer
+
+/-- `np.sum([c.p for c in cvrs if not c.phantom])` (L1134) -/
+def sumP (cvrs : List Card) (contests : List SContest) : XR :=
+  ((cvrs.filter (fun cd => !cd.phantom)).map (cardP cvrs contests)).foldl XR.add 0
+
+/-- the value returned with style information (L1134): `math.ceil(np.sum([c.p for c in cvrs if not c.phantom]))` -/
+def auditTotalStyle (cvrs : List Card) (contests : List SContest) : Except Err Int :=
+  ceilXR (sumP cvrs contests)
+
+/-- L1124-1140: the returned `total_size` of either branch -/
+def auditTotal (useStyle : Bool) (cvrs : List Card) (contests : List SContest) : Except Err Int :=
+  if useStyle then auditTotalStyle cvrs contests
+  else (auditTotalNoStyle (contests.map (·.size))).map (fun (n : Nat) => (n : Int))
+
 /-! ### `raire/sample_estimator.py: sample_size` -/
 
 /-- `sample_size(mean, tw, tl, to, args, N, upper_bound, polling)`; `args` = (erate1, erate2, rlimit,
